@@ -27,6 +27,11 @@ Theorem C12_std_sq_is_population_variance l thresh : ~ inject_Z (Z.of_nat (lengt
 Proof. exact (std_sq_is_population_variance l thresh). Qed.
 Print Assumptions C12_std_sq_is_population_variance.
 
+(* ... which is never negative: the np.maximum(variance, 0) in the source only absorbs negative rounding *)
+Theorem C12_variance_nonneg l thresh : ~ inject_Z (Z.of_nat (length l)) == 0 ->
+  exists v, p_var (band_stats (tile_accum thresh l)) = Fin v /\ 0 <= v.
+Proof. exact (variance_nonneg l thresh). Qed.
+
 (* in-paint percentage: share of valid pixels whose R2 lies below the threshold recorded in the file *)
 Theorem C12_inpaint_percentage l t : ~ inject_Z (Z.of_nat (length l)) == 0 ->
   p_inpaint (band_stats (tile_accum (Some t) l)) = Fin (100 * count_below t l / inject_Z (Z.of_nat (length l))) /\
